@@ -743,6 +743,30 @@ impl Storage {
         self.inner.put(path, buf.into(), PutMode::Create).await
     }
 
+    /// Checks, without writing, that `doc` serializes to an object [`put`]
+    /// would accept: the same encoding, against the same size limit.
+    ///
+    /// [`put`]: Self::put
+    pub fn check_object_size<T>(&self, doc_path: &str, doc: &T) -> Result<(), DBError>
+    where
+        T: Serialize,
+    {
+        let mut buf: Vec<u8> = Vec::new();
+        to_writer(doc, &mut buf).map_err(|err| DBError::Serialization {
+            name: self.inner.base_path.to_string(),
+            source: err.into(),
+        })?;
+        let limit = self.inner.metadata.config.max_small_object_size;
+        if buf.len() > limit {
+            return Err(DBError::PayloadTooLarge {
+                path: self.full_path(doc_path).to_string(),
+                size: buf.len(),
+                limit,
+            });
+        }
+        Ok(())
+    }
+
     /// Puts (creates or overwrites/updates) a document in the object store.
     ///
     /// Serializes the document using `cbor2` and compresses it if enabled.
